@@ -65,6 +65,12 @@ def run_variant(v, only):
         shutil.rmtree(tmp, ignore_errors=True)
 
 
+def run_all(only=None, ids=None, jobs: int = 16):
+    vs = [v for v in VARIANTS if not ids or v["id"] in ids]
+    with ThreadPoolExecutor(jobs) as ex:
+        return [r for r in ex.map(lambda v: run_variant(v, only or set()), vs) if r]
+
+
 def main() -> int:
     ap = argparse.ArgumentParser()
     ap.add_argument("--only", default="")
